@@ -101,7 +101,7 @@ func HarnessC18Listen() {
 	ctx, cancel := context.WithCancel(context.Background())
 	replies, err := b.ListenForNotifications(ctx, BackendListenForNotificationsParams{OperationID: "mine"})
 	vrt.Assert(err == nil, "listening")
-	nNotif := vrt.Int("notifications", 0, 2)
+	nNotif := vrt.Int("notifications", 0, vrt.Bound("maxnotifications", 2))
 	notes := make([]*message.Message, nNotif)
 	mine := make([]bool, nNotif)
 	for i := 0; i < nNotif; i++ {
